@@ -90,6 +90,10 @@ fn run(ctx: &mut Ctx) {
     // operands that were never interned in the environment that operates on them
     let spf = Space::<usize>::by_foreign(&[1, 4, 6]);
     sweep_api(ctx, &spf, "foreign", ORACLE, IteMode::CondInit, TAG);
+    // short-lived copies as operands in an environment that holds their interned twins
+    if let Ok(spt) = Space::<usize>::by_interning(&[1, 4, 6]) {
+        sweep_api(ctx, &spt, "transient", ORACLE, IteMode::CondInit, TAG);
+    }
     f4_sweep(ctx, ORACLE, TAG);
     if ctx.thorough() {
         // complete F_4 x F_4 for every connective (2^32 pairs each)
